@@ -394,7 +394,7 @@ func outcomeSig(pre *state, o *outcome, startID int) string {
 			continue
 		}
 		root := addrRoot(me.Addr)
-		if root != nil && root.Op == "alloc" && root.ID > startID && !escaping[root.ID] {
+		if root != nil && (root.Op == "alloc" || root.Op == "makeslice") && root.ID > startID && !escaping[root.ID] {
 			continue
 		}
 		diffs = append(diffs, k+"="+me.V.Key())
@@ -751,6 +751,22 @@ func (e *Engine) model(st *state, fr *frame, in ssa.CallInstruction, fn *ssa.Fun
 		for _, a := range args {
 			cargs = append(cargs, e.contentOf(st, a))
 		}
+		// library functions that permute or overwrite a slice argument in place
+		if mutatesSliceArg(name) {
+			for _, a := range args {
+				a = stripIface(a)
+				if a.Type == nil {
+					continue
+				}
+				if _, isSl := a.Type.Underlying().(*types.Slice); isSl {
+					c := e.contentOf(st, a)
+					e.setContent(st, a, &Val{Op: "call", Name: name, Args: []*Val{c}, Type: a.Type})
+					if r := addrRoot(stripCT(a)); r != nil && (r.Op == "param" || r.Op == "init" || r.Op == "global") {
+						e.addEvent(st, fr, &Event{Kind: EvStore, Dst: &Val{Op: "index", Args: []*Val{a, &Val{Op: "unknown", Name: "any"}}, Type: a.Type}, Src: &Val{Op: "call", Name: name, Args: []*Val{c}, Type: a.Type}}, in)
+					}
+				}
+			}
+		}
 		switch name {
 		case "bytes.Repeat":
 			e.addEvent(st, fr, &Event{Kind: EvAlloc, Mode: "bytes.Repeat", Src: args[1], Args: []*Val{args[1]}}, in)
@@ -996,4 +1012,21 @@ func stagedInt(src *Val) *Val {
 func isZero(v *Val) bool {
 	n, ok := v.Int64()
 	return ok && n == 0
+}
+
+// mutatesSliceArg: standard-library functions that modify the elements of a slice they are given.
+func mutatesSliceArg(name string) bool {
+	switch {
+	case strings.HasPrefix(name, "sort."):
+		return name != "sort.Search" && !strings.HasPrefix(name, "sort.Search") && !strings.HasSuffix(name, "AreSorted") && name != "sort.IsSorted" && name != "sort.SliceIsSorted"
+	case strings.HasPrefix(name, "slices."):
+		for _, m := range []string{"Sort", "Reverse", "Delete", "Insert", "Compact", "Replace", "Grow", "Clip"} {
+			if strings.HasPrefix(name, "slices."+m) {
+				return true
+			}
+		}
+	case name == "encoding/hex.Encode" || name == "encoding/hex.Decode":
+		return true
+	}
+	return false
 }
